@@ -246,18 +246,28 @@ pub struct RunCtx {
     pub active_at_close: std::cell::Cell<Option<usize>>,
     pub order_anomaly_reported: std::cell::Cell<bool>,
     pub aborted: std::cell::Cell<bool>,
+    pub crashed: std::cell::Cell<bool>,
     /// deletion markers appended to blobs that were closed at that moment: (blob, offset)
     pub closed_writes: RefCell<BTreeSet<(usize, u64)>>,
     /// first failing point of a sweep operation: (op uid, equivalent explicit damage)
     pub sweep_hit: RefCell<Option<(u32, Vec<AtRest>)>>,
     /// physically complete records that may or may not be visible: (blob, offset)
     pub optional_records: RefCell<BTreeSet<(usize, u64)>>,
+    pub crash_victims: RefCell<BTreeSet<usize>>,
+    pub acked_before_crash: RefCell<BTreeSet<u32>>,
+    pub quarantined_before: RefCell<BTreeSet<usize>>,
+    pub scratch_counter: std::cell::Cell<u32>,
+    pub scratch_dirs: RefCell<Vec<PathBuf>>,
     /// blobs whose index was loaded into memory by init (the active blob of an eager init)
     pub loaded_at_init: RefCell<BTreeMap<usize, u64>>,
 }
 
 impl RunCtx {
     pub fn violate(&self, props: &[&str], rule: &str, cause: impl Into<String>, detail: impl Into<String>) {
+        // after the kill instant the process no longer exists: nothing it "observes" counts
+        if self.world.is_dead() {
+            return;
+        }
         let cause = cause.into();
         let detail = detail.into();
         let seq = self.world.seq();
@@ -273,6 +283,20 @@ impl RunCtx {
         for (name, sh) in w.shadows.iter() {
             if let FileKind::Blob(id) = classify(name) {
                 if !name.contains('/') && !sh.quarantined && !sh.removed && !ignored.contains(&id) {
+                    s.insert(id);
+                }
+            }
+        }
+        s
+    }
+
+    /// blob files present in the work dir (not quarantined / removed), whether attached or not
+    pub fn attached_ignoring_ignored(&self) -> BTreeSet<usize> {
+        let w = self.world.inner.borrow();
+        let mut s = BTreeSet::new();
+        for (name, sh) in w.shadows.iter() {
+            if let FileKind::Blob(id) = classify(name) {
+                if !name.contains('/') && !sh.quarantined && !sh.removed {
                     s.insert(id);
                 }
             }
@@ -387,9 +411,15 @@ where
         active_at_close: std::cell::Cell::new(None),
         order_anomaly_reported: std::cell::Cell::new(false),
         aborted: std::cell::Cell::new(false),
+        crashed: std::cell::Cell::new(false),
         closed_writes: RefCell::new(BTreeSet::new()),
         sweep_hit: RefCell::new(None),
         optional_records: RefCell::new(BTreeSet::new()),
+        crash_victims: RefCell::new(BTreeSet::new()),
+        acked_before_crash: RefCell::new(BTreeSet::new()),
+        quarantined_before: RefCell::new(BTreeSet::new()),
+        scratch_counter: std::cell::Cell::new(0),
+        scratch_dirs: RefCell::new(Vec::new()),
         loaded_at_init: RefCell::new(BTreeMap::new()),
     });
 
@@ -454,6 +484,9 @@ where
     };
     drop(w);
     let _ = std::fs::remove_dir_all(&dir);
+    for d in ctx.scratch_dirs.borrow().iter() {
+        let _ = std::fs::remove_dir_all(d);
+    }
     out
 }
 
